@@ -118,7 +118,12 @@ class TBRMatchedMarkets:
       geos_with_max_impact = list(
           self.geo_req_impact.sort_values(ascending=False).index)
       geos_in_order = list(geo for geo in geos_with_max_impact if geo in geos)
-      geos = set(geos_in_order[:n_geos_max])
+      # The geos that must be included are never dropped by the truncation.
+      must_include = self.geos_must_include
+      geos_in_order = (
+          [geo for geo in geos_in_order if geo in must_include] +
+          [geo for geo in geos_in_order if geo not in must_include])
+      geos = set(geos_in_order[:max(n_geos_max, len(must_include))])
     return geos
 
   @property
